@@ -22,7 +22,7 @@ Qed.
 Print Assumptions C16_at_most_one.
 
 (* Sharing, for every schedule: as long as sink n stays alive (from the state after `pre` to the end of
-   any continuation `ls` - requests, pool opens/closes, resumes in any order...), no other sink is
+   any continuation `ls` - requests, pool opens/closes, late starts of Open's greenlet, resumes in any order...), no other sink is
    created and every request that is forwarded, at once or after having waited, is forwarded to n.
    In particular concurrent first requests all use the sink created by the first. *)
 Theorem C16_share : forall pre ls n,
@@ -167,6 +167,13 @@ Example C16_example_concurrent :
 Proof.
   split; [vm_compute; reflexivity|]. split; [exists SIdle | exists SOpen]; (split; [vm_compute; reflexivity | discriminate]).
 Qed.
+
+(* pool.Open() whose greenlet starts only after a request has created the sink: it joins that open *)
+Example C16_example_late_start :
+  snd (run init [OpenPool; Req false; Start 0 false; OpenPool; OpenDone 0 true; Resume 0; Resume 1; ClosePool; ClosePool; Req false])
+  = [[]; [Create 0; OpenUnder 0]; [OpenUnder 0]; [OpenResult 2 true]; []; [OpenResult 0 true]; [Forward 1 0]; []; [CloseUnder 0];
+     [Create 1; OpenUnder 1]].
+Proof. vm_compute; reflexivity. Qed.
 
 (* fault, replacement, the dead sink is left alone (hypothesis of C16_replace: sink 0 closed) *)
 Example C16_example_replace :
